@@ -3,7 +3,9 @@
    spline of C01_Model.v / C08_Model.v (coq/C09_Evals.v), so every token is predicted: the indices returned by
    Locate and the values of all queries, each on the used object, on a fresh object with the same prefactor
    and (Interpolate / Derivative) on a fresh object with prefactor 1; the prefactor after every
-   Set_Prefactor / Multiply; EXIT.  `_` (not compared) remains only for the 2-D Global_* calls. *)
+   Set_Prefactor / Multiply; EXIT.  `_` (not compared) remains only for the 2-D Global_* calls.
+   The object is built by the model's constructors (construct1 / construct1_rows / construct2 / construct2_rows of
+   C09_Model.v) from the raw tables and the unit arguments given in the case (omitted ones = the default -1.0). *)
 open Common
 let zi = z_of_int
 let iz = int_of_z
@@ -11,9 +13,27 @@ let mk_xv (a : float array) = fun z -> let i = iz z in if i >= 0 && i < Array.le
 exception Stop of string
 let stop s = raise (Stop s)
 
+(* <kind><argc> [dims]: kind = overload, argc = how many unit arguments the call site passes explicitly *)
+let ctor_args r ndims =
+  let w = word r in
+  if String.length w <> 2 then stop ("MODELERR ctor_" ^ w);
+  let argc = Char.code w.[1] - Char.code '0' in
+  if argc < 0 || argc > ndims then stop ("MODELERR ctor_" ^ w);
+  let dims = Array.init ndims (fun _ -> dflt_dim fops) in
+  for k = 0 to argc - 1 do dims.(k) <- num r done;
+  (w.[0], dims)
+let unres = function Ok v -> v | Exit -> stop "EXIT" | OOB -> stop "OOB" | Fuel -> stop "FUEL"
+
 let one_d r ~trace =
-  let xs = Array.of_list (list r) in
-  let ys = list r in
+  let (ck, dims) = ctor_args r 2 in
+  let xs0 = list r in
+  let ys0 = list r in
+  let o = unres (match ck with
+    | 'v' -> construct1 fops xs0 ys0 dims.(0) dims.(1)
+    | 'r' -> construct1_rows fops (List.map2 (fun x y -> [x; y]) xs0 ys0) dims.(0) dims.(1)
+    | _ -> stop "MODELERR ctor_kind") in
+  let xs = Array.of_list o.o_xs in
+  let ys = o.o_fs in
   let n = zi (Array.length xs) in
   let xv = mk_xv xs in
   let stp =
@@ -22,7 +42,7 @@ let one_d r ~trace =
     else (let obj = build fops (Array.to_list xs) ys in fun st o -> step_steffen fops obj n xv st o) in
   let kind st x = iz (locate_kind fops n xv st x) in
   let nops = integer r in
-  let st = ref (init fops) in
+  let st = ref o.o_state in
   let stack = ref [] in
   let bad = function
     | OExit -> stop "EXIT" | OOOB -> stop "OOB" | OFuel -> stop "FUEL" | _ -> stop "MODELERR unexpected_output" in
@@ -33,15 +53,15 @@ let one_d r ~trace =
       List.iter (fun x -> put_i (kind !s x);
                   let (s', o) = stp !s (OpLocate x) in (match o with OIndex _ -> s := s' | _ -> ())) xs_
     end in
-  let value ?(base = false) o = (* the op on the used object, on a fresh one with the same prefactor, and (base) with prefactor 1 *)
+  let value ?(bases = []) o = (* the op on the used object, on a fresh one with the same prefactor, and the ops [bases] on fresh objects with prefactor 1 *)
     let (s, out) = stp !st o in
     let (_, outf) = stp (fresh !st.prefactor) o in
     (match out, outf with
      | OValue (_, v), OValue (_, vf) -> if not trace then (put_f v; put_f vf)
      | OValue (_, _), x -> bad x
      | x, _ -> bad x);
-    if base && not trace then
-      (match snd (stp (fresh 1.0) o) with OValue (_, vb) -> put_f vb | x -> bad x);
+    if not trace then
+      List.iter (fun ob -> match snd (stp (fresh 1.0) ob) with OValue (_, vb) -> put_f vb | x -> bad x) bases;
     st := s in
   for _ = 1 to nops do
     match word r with
@@ -54,17 +74,20 @@ let one_d r ~trace =
          | OIndex _, x -> bad x
          | x, _ -> bad x);
         st := s
-    | "I" -> let x = num r in trace_locates [x]; value ~base:true (OpInterpolate x)
+    | "I" | "O" -> let x = num r in trace_locates [x]; value ~bases:[OpInterpolate x] (OpInterpolate x)   (* operator()(x) { return Interpolate(x); } *)
     | "D" -> let x = num r in let k = integer r in
-        trace_locates (if k = 0 then [x; x] else [x]); value ~base:true (OpDerivative (x, zi k))
+        trace_locates (if k = 0 then [x; x] else [x]); value ~bases:[OpDerivative (x, zi k)] (OpDerivative (x, zi k))
+    | "d" -> let x = num r in      (* Derivative(x): default argument deriv = 1 *)
+        trace_locates [x]; value ~bases:[OpDerivative (x, zi 1)] (OpDerivative (x, zi 1))
     | "G" -> let a = num r in let b = num r in
-        trace_locates (if a > b then [b; a] else [a; b]); value (OpIntegrate (a, b))
+        trace_locates (if a > b then [b; a] else [a; b]); value ~bases:[OpIntegrate (a, b)] (OpIntegrate (a, b))
     | "m" -> let a = num r in let b = num r in
-        if not (b < a) then trace_locates [a; b; a; b]; value (OpLocalMin (a, b))
+        if not (b < a) then trace_locates [a; b; a; b]; value ~bases:[OpLocalMin (a, b); OpLocalMax (a, b)] (OpLocalMin (a, b))
     | "M" -> let a = num r in let b = num r in
-        if not (b < a) then trace_locates [a; b; a; b]; value (OpLocalMax (a, b))
-    | "gm" -> value OpGlobalMin
-    | "gM" -> value OpGlobalMax
+        if not (b < a) then trace_locates [a; b; a; b]; value ~bases:[OpLocalMin (a, b); OpLocalMax (a, b)] (OpLocalMax (a, b))
+    | "gm" -> value ~bases:[OpGlobalMin; OpGlobalMax] OpGlobalMin
+    | "gM" -> value ~bases:[OpGlobalMin; OpGlobalMax] OpGlobalMax
+    | "Q" -> if not trace then (put_f (fst o.o_dom); put_f (snd o.o_dom))     (* the public member domain *)
     | "P" -> let f = num r in st := fst (stp !st (OpSetPrefactor f)); if not trace then put_f !st.prefactor
     | "U" -> let f = num r in st := fst (stp !st (OpMultiply f)); if not trace then put_f !st.prefactor
     | "C" | "A" -> stack := !st :: !stack; st := fst (stp !st OpCopy)
@@ -73,28 +96,40 @@ let one_d r ~trace =
   done
 
 let two_d r =
-  let xs = Array.of_list (list r) in
-  let ys = Array.of_list (list r) in
+  let (ck, dims) = ctor_args r 3 in
+  let xs0 = list r in
+  let ys0 = list r in
+  let f0 = List.map (fun _ -> List.map (fun _ -> num r) ys0) xs0 in
+  let o = unres (match ck with
+    | 'g' -> construct2 fops xs0 ys0 f0 dims.(0) dims.(1) dims.(2)
+    | 't' -> let rows = List.concat (List.map2 (fun x row -> List.map2 (fun y v -> [x; y; v]) ys0 row) xs0 f0) in
+             construct2_rows fops rows dims.(0) dims.(1) dims.(2)
+    | _ -> stop "MODELERR ctor_kind") in
+  let xs = Array.of_list o.o2_xs in
+  let ys = Array.of_list o.o2_ys in
   let nx = Array.length xs and ny = Array.length ys in
-  let f = Array.init nx (fun _ -> Array.init ny (fun _ -> num r)) in
+  let f = Array.of_list (List.map Array.of_list o.o2_f) in
   let fv zi_ zj = let i = iz zi_ and j = iz zj in if i >= 0 && i < nx && j >= 0 && j < ny then f.(i).(j) else Float.nan in
   let stp st o = step2 fops (zi nx) (mk_xv xs) (zi ny) (mk_xv ys) fv st o in
   let nops = integer r in
-  let st = ref (init2 fops) in
+  let st = ref o.o2_state in
   let stack = ref [] in
   let bad = function
     | O2Exit -> stop "EXIT" | O2OOB -> stop "OOB" | O2Fuel -> stop "FUEL" | _ -> stop "MODELERR unexpected_output" in
   for _ = 1 to nops do
     match word r with
-    | "I" -> let x = num r in let y = num r in
+    | "I" | "O" -> let x = num r in let y = num r in
         let (s, out) = stp !st (Op2Interpolate (x, y)) in
         let (_, outf) = stp { sx = init fops; sy = init fops; pf2 = !st.pf2 } (Op2Interpolate (x, y)) in
-        (match out, outf with
-         | O2Value (_, _, v), O2Value (_, _, vf) -> put_f v; put_f vf
-         | O2Value (_, _, _), x -> bad x
-         | x, _ -> bad x);
+        let (_, outb) = stp (init2 fops) (Op2Interpolate (x, y)) in
+        (match out, outf, outb with
+         | O2Value (_, _, v), O2Value (_, _, vf), O2Value (_, _, vb) -> put_f v; put_f vf; put_f vb
+         | O2Value (_, _, _), O2Value (_, _, _), x -> bad x
+         | O2Value (_, _, _), x, _ -> bad x
+         | x, _, _ -> bad x);
         st := s
-    | "gm" | "gM" -> put_w "_"; put_w "_"
+    | "gm" | "gM" -> put_w "_"; put_w "_"; put_w "_"; put_w "_"
+    | "Q" -> let ((a, b), (c, d)) = o.o2_dom in put_f a; put_f b; put_f c; put_f d
     | "P" -> let f = num r in st := fst (stp !st (Op2SetPrefactor f)); put_f !st.pf2
     | "U" -> let f = num r in st := fst (stp !st (Op2Multiply f)); put_f !st.pf2
     | "C" | "A" -> stack := !st :: !stack; st := fst (stp !st Op2Copy)
